@@ -60,6 +60,12 @@ FUNCS = [
     ("metadata_doc", "gapic/schema/metadata.py", "Metadata.doc", [],
      {"subst": {"self.documentation.leading_comments": ("leading", "Str"), "self.documentation.trailing_comments": ("trailing", "Str"),
                 "self.documentation.leading_detached_comments": ("detached", "ListStr")}, "ret": "Str"}),
+    ("import_str", "gapic/schema/imp.py", "Import.__str__", [("alias", "Str"), ("module", "Str"), ("package", "ListStr")]),
+    ("service_shortname", "gapic/schema/wrappers.py", "Service.shortname", [("host", "Str")]),
+    ("naming_long_name", "gapic/schema/naming.py", "Naming.long_name", [("namespace", "ListStr"), ("name", "Str")]),
+    ("naming_module_namespace", "gapic/schema/naming.py", "Naming.module_namespace", [("namespace", "ListStr")]),
+    ("naming_warehouse_package_name", "gapic/schema/naming.py", "Naming.warehouse_package_name",
+     [("_warehouse_package_name", "Str"), ("namespace", "ListStr"), ("name", "Str")]),
     # gapic/schema/metadata.py: Address — the naming of every type reference and import (C01, C02, C12).  Properties of `self` that
     # a function reads become parameters (`subst`); Model/AddressT.lean composes the pieces the way the properties call each other.
     ("address_str", "gapic/schema/metadata.py", "Address.__str__", [("module", "Str"), ("parent", "ListStr"), ("name", "Str")],
